@@ -21,14 +21,18 @@ package fastq
 //@   ensures  result0 != nil
 //@   assigns fresh
 
+// Besides totality (C03): every fragment of a physical line longer than the bufio buffer is kept (C01, C04),
+// stated with the ghost line counters of bufio.Reader.ReadLine as for the FASTA reader.
 //@ func (*Reader).Read
-//@   property C03
-//@   requires wfReader(r)
+//@   property C03 C01 C04
+//@   requires wfReader(r) && lineSoFar(r.r) == 0
 //@   ensures [value-or-error] result0 != nil || result1 != nil
-//@   loop 1 invariant wfReader(r) && (fresh(line) || arr(line) == 0) && 0 <= state && state <= 3
+//@   assert call bytes.TrimSpace :: len(arg0) == lineLen(r.r)
+//@   loop 1 invariant wfReader(r) && (fresh(line) || arr(line) == 0) && 0 <= state && state <= 3 && r.r == old(r.r)
 //@   loop 1 invariant state != 0 ==> t != nil && len(label) > 0
 //@   loop 1 invariant fresh(seqBuff) || arr(seqBuff) == 0
-//@   loop 1 writes fresh
+//@   loop 1 invariant [fragments] len(line) == lineSoFar(r.r)
+//@   loop 1 assigns lineSoFar(r.r), lineLen(r.r)
 //@   loop 2 invariant 0 <= idx && idx <= len(line) && 0 <= i && i <= idx && len(seqBuff) == len(line) && fresh(seqBuff)
 //@   loop 2 invariant wfReader(r) && (fresh(line) || arr(line) == 0) && t != nil
 //@   loop 2 writes fresh
